@@ -52,8 +52,8 @@ def main():
             env = dict(os.environ)
             env["VERIF_REPO"] = wt
             env["VERIF_SKIP_REPLAYS"] = "1"
-            env["VERIF_EVIDENCE_DIR"] = "/var/tmp/seed-evidence"
-            env["VERIF_FOUND_DIR"] = "/var/tmp/seed-found"
+            env["VERIF_EVIDENCE_DIR"] = "/var/tmp/seed-evidence-"+sid
+            env["VERIF_FOUND_DIR"] = "/var/tmp/seed-found-"+sid
             t0 = time.time()
             c = subprocess.run([os.path.join(VERIF, "check"), cid, "quick"], cwd=VERIF, env=env, capture_output=True, text=True)
             viol = [l for l in c.stdout.splitlines() if l.startswith("  violation:")]
@@ -64,8 +64,8 @@ def main():
             results[cid]["quick_full_exit"] = c2.returncode
         meta["checks"] = results
         meta["caught_by_quick"] = any(r["quick_generated_tier_exit"] == 1 or r["quick_full_exit"] == 1 for r in results.values())
-        shutil.rmtree("/var/tmp/seed-evidence", ignore_errors=True)
-        shutil.rmtree("/var/tmp/seed-found", ignore_errors=True)
+        shutil.rmtree("/var/tmp/seed-evidence-"+sid, ignore_errors=True)
+        shutil.rmtree("/var/tmp/seed-found-"+sid, ignore_errors=True)
         old = {}
         mp = os.path.join(dst, "meta.json")
         if os.path.exists(mp):
@@ -90,8 +90,8 @@ def main():
             for cid in [pid] + extra:
                 env = dict(os.environ)
                 env["VERIF_SKIP_REPLAYS"] = "1"
-                env["VERIF_EVIDENCE_DIR"] = "/var/tmp/seed-evidence"
-                env["VERIF_FOUND_DIR"] = "/var/tmp/seed-found"
+                env["VERIF_EVIDENCE_DIR"] = "/var/tmp/seed-evidence-"+sid
+                env["VERIF_FOUND_DIR"] = "/var/tmp/seed-found-"+sid
                 t0 = time.time()
                 c = subprocess.run([os.path.join(VERIF, "check"), cid, "quick"], cwd=VERIF, env=env, capture_output=True, text=True)
                 viol = [l for l in c.stdout.splitlines() if l.startswith("  violation:")]
@@ -104,8 +104,8 @@ def main():
             meta["caught_by_quick"] = any(r["quick_generated_tier_exit"] == 1 or r["quick_full_exit"] == 1 for r in results.values())
         finally:
             subprocess.run("git -C /repo checkout -- . && git -C /repo clean -fdq", shell=True)
-            shutil.rmtree("/var/tmp/seed-evidence", ignore_errors=True)
-            shutil.rmtree("/var/tmp/seed-found", ignore_errors=True)
+            shutil.rmtree("/var/tmp/seed-evidence-"+sid, ignore_errors=True)
+            shutil.rmtree("/var/tmp/seed-found-"+sid, ignore_errors=True)
     old = {}
     mp = os.path.join(dst, "meta.json")
     if os.path.exists(mp):
